@@ -138,6 +138,14 @@ func (p *Prog) Eval() map[*Fn]bool {
 			roots = append(roots, p.Implementations(iface.Method(i))...)
 		}
 	}
+	// the Go-side API: exported methods of Runtime and Arguments are called from user functions while a template executes
+	for _, f := range p.Fns {
+		if f.Pkg == p.Jet && f.Obj != nil && f.Obj.Exported() && f.Sig != nil && f.Sig.Recv() != nil {
+			if n := NamedOf(f.Sig.Recv().Type()); n != nil && (n.Obj().Name() == "Runtime" || n.Obj().Name() == "Arguments") {
+				roots = append(roots, f)
+			}
+		}
+	}
 	return p.Reach(roots...)
 }
 
